@@ -59,7 +59,7 @@ var atColKinds = map[string]colKind{
 		}},
 	"bigint": {"bigint", func(n string) mm.Column { return mm.Column{Name: n, T: mm.TInt, Bits: 64, ColType: "bigint(20)"} },
 		func(r *vc.Rand) interface{} {
-			return []int64{0, 5, -9, 1 << 40, 1<<53 + 1, math.MaxInt64, math.MinInt64, 123456789}[r.Intn(8)]
+			return []int64{0, 5, -9, 1 << 40, 1<<53 + 1, math.MaxInt64, math.MinInt64, 123456789, 1 << 53, 1<<53 + 2}[r.Intn(10)]
 		}},
 	"tinyint": {"tinyint", func(n string) mm.Column { return mm.Column{Name: n, T: mm.TInt, Bits: 8, ColType: "tinyint(4)"} },
 		func(r *vc.Rand) interface{} { return int64(r.Intn(256) - 128) }},
@@ -530,7 +530,7 @@ func (c *atCase) steps(dbName string) []gtxStep {
 	var out []gtxStep
 	for _, g := range c.Groups {
 		if g.Explicit {
-			out = append(out, gtxStep{Op: "begin", DB: dbName})
+			out = append(out, gtxStep{Op: "begin", DB: dbName, StopOnErr: true})
 		}
 		for _, s := range g.Stmts {
 			op := "exec"
@@ -542,7 +542,7 @@ func (c *atCase) steps(dbName string) []gtxStep {
 			out = append(out, gtxStep{Op: op, DB: dbName, SQL: s.SQL, Args: s.Args, StopOnErr: true})
 		}
 		if g.Explicit {
-			out = append(out, gtxStep{Op: "commit"})
+			out = append(out, gtxStep{Op: "commit", StopOnErr: true})
 		}
 	}
 	return out
